@@ -5,4 +5,4 @@ THEOREMS = ['id_marker_permanent', 'address_time_monotone', 'marked_id_refused',
 
 
 def run():
-    run_store('C11', THEOREMS, """Focus: one or more deletion requests per id / address in every arrival order relative to each other and to the events they cover (before, after, resubmission), then reopen / rebuild / further stores; oracle: reply classes (deleted / ok for newer events), the retrievable set, id markers and address markers with their times, all as the specification (which keeps the maximum time) predicts after every step.""", {'reply', 'live', 'markers'})
+    run_store('C11', THEOREMS, """Focus: one or more deletion requests per id / address in every arrival order relative to each other and to the events they cover (before, after, resubmission), then reopen / rebuild / further stores; oracle: reply classes (deleted / ok for newer events), the retrievable set, id markers and address markers with their times, all as the specification (which keeps the maximum time) predicts after every step.""", {'reply', 'live', 'markers'}, relevant={'STO', 'HAS', 'DEL', 'NAD', 'RBD', 'OPN'})
